@@ -214,6 +214,17 @@ impl PoolMap {
         self.record_entry_descendants(&entry);
         self.track_entry_statics(None, Some(status));
         self.update_stat_for_add_tx(entry.size, entry.cycles);
+        // An entry inserted below pooled transactions (a detached transaction re-added after a
+        // reorg while its children stayed) lengthens the ancestry of its descendants, evict
+        // those which exceed the ancestors limit now.
+        for id in self.calc_descendants(&tx_short_id) {
+            if self
+                .get(&id)
+                .is_some_and(|descendant| descendant.ancestors_count > self.max_ancestors_count)
+            {
+                evicts.extend(self.remove_entry_and_descendants(&id));
+            }
+        }
         Ok((true, evicts))
     }
 
